@@ -284,6 +284,7 @@ def gen_lex_file(r):
     return "\n".join(out) + "\nint main(void) { return 0; }\n"
 
 
+STORAGE_SPECS = ["typedef", "static", "extern", "inline", "_Thread_local", "__thread", "register", "auto", "_Noreturn"]
 SPECS = ["typedef", "static", "extern", "inline", "_Thread_local", "__thread", "register", "auto", "const", "volatile", "restrict", "signed", "unsigned", "short", "long",
          "long long", "int", "char", "float", "double", "_Bool", "void", "_Atomic", "_Noreturn", "_Alignas(8)", "_Alignas(int)", "__attribute__((packed))", "struct S0", "enum E0", "T0"]
 
@@ -296,6 +297,12 @@ def gen_decl_file(r):
     n = r.range(3, 10)
     for i in range(n):
         specs = " ".join(r.pick(SPECS) for _ in range(r.range(1, 5)))
+        if r.below(4) == 0:
+            # every fourth one is a combination of storage-class and function specifiers around one type: which combinations are
+            # refused is decided by flags the compiler adds up
+            specs = " ".join(r.sample(STORAGE_SPECS, r.range(2, 4)) + [r.pick(["int", "T0", "double", "char", "long"])])
+            if r.below(2):
+                specs = " ".join(reversed(specs.split(" ")))
         k = r.below(7)
         if k == 0:
             out.append("%s g%d;" % (specs, i))
@@ -625,16 +632,20 @@ def gen_case(seed, src, own, tests, avail=None):
         path, mutated = r.pick(tests), False
     elif x < 16:
         path, mutated = r.pick(tests), True
-    elif x < 18:
+    elif x < 17:
         path, mutated = r.pick(own), True
+    elif x == 17:
+        path, mutated = tests[0], False
+        gen_text = gen_scale_file(r)
+        fam = "scale"
     elif x == 18:
         path, mutated = tests[0], False
         gen_text = gen_lex_file(r)
         fam = "lex"
     else:
         path, mutated = tests[0], False
-        gen_text = gen_abi_file(r)
-        fam = "abi"
+        gen_text = gen_predef_file(r, src)
+        fam = "predef"
     opts = list(r.pick(OPTION_SETS))
     if "-o-stdout" in opts and "-S" in opts and r.below(2) == 0:
         # the output itself goes to descriptor 1: inputs that are rejected only by the code generator (`a + 1 = 2;`) belong here
